@@ -462,6 +462,7 @@ pub fn run_layer_a(which: Which, seed: u64, tier: &str, ev: &mut Evidence) -> Ve
         let (name, spec, case) = &specs[i];
         let mut rng = Rng::for_case(seed, which.id(), ENGINE, *case);
         let t0 = std::time::Instant::now();
+        super::util::breadcrumb(which.id(), json!({"kind": "cycle", "property": which.id(), "program": spec.to_json(), "seed": seed, "case": case, "random_plans": random_plans}));
         let o = exercise(which, name, spec, &mut rng, random_plans);
         if timing && t0.elapsed().as_millis() > 500 { eprintln!("TIMING {} {} ms {:?}", name, t0.elapsed().as_millis(), spec.brief()); }
         o
@@ -505,4 +506,12 @@ pub fn run_layer_a(which: Which, seed: u64, tier: &str, ev: &mut Evidence) -> Ve
 pub fn replay(v: &Value) -> Result<Option<(String, String)>, String> {
     let case = CycleCase::from_json(v).ok_or("malformed cycle-sim replay")?;
     replay_case(&case)
+}
+
+pub fn replay_unit(u: &Value) -> Result<(), String> {
+    let which = if u.get("property").and_then(|x| x.as_str()) == Some("C04") { Which::C04 } else { Which::C03 };
+    let spec = ProgSpec::from_json(u.get("program").ok_or("no program")?).ok_or("bad program")?;
+    let mut rng = Rng::for_case(u.get("seed").and_then(|x| x.as_u64()).unwrap_or(1), which.id(), ENGINE, u.get("case").and_then(|x| x.as_u64()).unwrap_or(0));
+    let _ = exercise(which, "replayed-unit", &spec, &mut rng, u.get("random_plans").and_then(|x| x.as_u64()).unwrap_or(6) as usize);
+    Ok(())
 }
